@@ -402,6 +402,9 @@ def gen_inter(rng):
             "cfg": {"flavour": rng.choice(["inc", "opaque", "weird"]), "salt": rng.getrandbits(32), "chunk_max": rng.choice([0, 1, 3, 64]),
                     "fs_seed": rng.getrandbits(30), "policy": POLICIES[rng.randrange(len(POLICIES))], "sched_seed": rng.getrandbits(32)},
             "gens": 0, "fs": {"files": files, "binfiles": binfiles, "faults": faults}, "tasks": tasks}
+    if rng.random() < 0.15:
+        spec["cfg"]["nest"] = [rng.getrandbits(16) for _ in range(ntasks - 1)]  # one thread, each consumer inside a gap of its predecessor
+        spec["cfg"]["policy"] = "nested"
     return spec
 
 
